@@ -386,7 +386,11 @@ def _run(ctx, name, n, do_model):
         hists.append(gen.history(None))
         guard += 1
     lines, reals, cases = [], [], []
+    stuck = 0
     for h in hists:
+        if stuck >= 3:
+            ctx.notes.append("C05: stopped after 3 stuck histories (every further one would wait for the same dead thread)")
+            break
         for st in ("thread", "multiplex"):
             ml = c05_gen.model_line(h, st)
             case = {"servertype": st, "history": h}
@@ -397,6 +401,7 @@ def _run(ctx, name, n, do_model):
                 if s[0] == "send" and s[1] in h["hostile"]:
                     ctx.count("hostile:" + (s[7] if len(s) > 7 else "semantic").split(":")[0] + (":unclassified" if s[5] is None else ""))
             if out["stuck"]:
+                stuck += 1
                 continue
             if ml is not None:
                 lines.append(ml)
